@@ -99,6 +99,8 @@ def make_task(kind, direction, seed, log=None):
         vs = [ContinuousMultiVariable(name="x", lower_bounds=[-400, -100, -900], upper_bounds=[100, 700, 50])]
     elif kind == "cont1":
         vs = [ContinuousVariable(name="x", lower_bound=-2.5, upper_bound=7.0)]
+    elif kind == "nanobj":    # an objective that is undefined (NaN) on part of the box
+        vs = [ContinuousMultiVariable(name="x", lower_bounds=[-3, -3], upper_bounds=[5, 5])]
     elif kind == "multi1":    # dimension 1 written with a multi-variable of one coordinate
         vs = [ContinuousMultiVariable(name="x", lower_bounds=[-2.5], upper_bounds=[7.0])]
     elif kind == "multi1b":   # a size-1 multi-variable next to another variable
@@ -143,6 +145,8 @@ def _objective(kind, x):
         return (x[0] - 1.0) ** 2 - 3.0          # negative costs occur
     if kind == "multi1b":
         return (x[0] - 1.0) ** 2 + (x[1] - 2.0) ** 2 - 3.0
+    if kind == "nanobj":
+        return float(sum((math.log(v) - v) if v > 0 else float("nan") for v in x))
     if kind == "contbig":
         return abs(x[0]) * 1e-3 + abs(x[1] - 2e5) * 1e-3
     if kind == "multiobj":
@@ -227,7 +231,8 @@ def run_case(case):
     import numpy as np
     import pyvolutionary as pv
     from pyvolutionary.models import Population
-    rec = {"case": {k: case[k] for k in case if k != "cfg_kw"}, "monitors": {}, "exc": None, "evals": 0}
+    rec = {"case": {k: case[k] for k in case if k != "cfg_kw"}, "monitors": {}, "exc": None, "evals": 0,
+           "cycles_budget": case["cfg_kw"].get("max_cycles")}
     M = rec["monitors"]
     K = getattr(pv, case["opt"])
     C = getattr(pv, case["cfg_name"])
@@ -239,7 +244,7 @@ def run_case(case):
     import tempfile
     logf = tempfile.NamedTemporaryFile(prefix="bnd_c05_", suffix=".log", delete=False)
     logf.close()
-    task, calls = make_task(case["kind"], case["direction"], case["seed"], log=logf.name)
+    task, calls = make_task(case["kind"], case["direction"], None if case.get("scenario") == "noseed" else case["seed"], log=logf.name)
     cfg_before, task_before = cfg.model_dump(), task.model_dump()
 
     def _obs(t):        # what the task answers about its search space (also covers private caches the dump does not show)
@@ -333,9 +338,21 @@ def run_case(case):
         M["C03"] = f"best_solution {b.position!r}/{b.cost!r} is not an agent of the last generation"
     elif any((a.cost > b.cost and not close(a.cost, b.cost)) if ismax else (a.cost < b.cost and not close(a.cost, b.cost)) for a in last):
         M["C03"] = f"an agent of the last generation is strictly better than best_solution (cost {b.cost!r})"
-    # C04
+    # C04: the criteria are the ones the caller configured (the parameters given, not what the object reads back)
+    from types import SimpleNamespace as _NS
+    kw_ = case["cfg_kw"]
+    es_ = kw_.get("early_stopping")
+    if isinstance(es_, dict):
+        es_ = _NS(patience=es_.get("patience", 1), min_delta=es_.get("min_delta", 1e-4))
+    intended = _NS(max_cycles=kw_["max_cycles"], fitness_error=kw_.get("fitness_error", 0.1), early_stopping=es_)
+    if (cfg.max_cycles, cfg.fitness_error) != (intended.max_cycles, intended.fitness_error) or (cfg.early_stopping is None) != (es_ is None):
+        M["C04"] = (f"the configured stop criteria are not the ones given: max_cycles {cfg.max_cycles} / fitness_error {cfg.fitness_error} / "
+                    f"early_stopping {cfg.early_stopping} for parameters {dict((k, kw_.get(k)) for k in ('max_cycles', 'fitness_error', 'early_stopping'))}")
+    cfg_obj, cfg = cfg, intended
     Kc = len(res.rates)
-    if len(res.evolution) != Kc + 1 or not (1 <= Kc <= cfg.max_cycles):
+    if "C04" in M:
+        pass
+    elif len(res.evolution) != Kc + 1 or not (1 <= Kc <= cfg.max_cycles):
         M["C04"] = f"{len(res.evolution)} generations, {Kc} rates, max_cycles {cfg.max_cycles}"
     else:
         if not stop_spec(cfg, Kc, res.rates):
@@ -349,6 +366,7 @@ def run_case(case):
             if not close(res.rates[k - 1], abs(1 - mf)):
                 M["C04"] = f"rate {k} = {res.rates[k - 1]!r} but |1 - mean fitness| of generation {k} = {abs(1 - mf)!r}"
                 break
+    cfg = cfg_obj
     # C09
     if cfg.model_dump() != cfg_before:
         diff = {k: (cfg_before[k], v) for k, v in cfg.model_dump().items() if cfg_before.get(k) != v}
@@ -418,8 +436,13 @@ def run_pair(case):
     K = getattr(pv, case["opt"])
     C = getattr(pv, case["cfg_name"])
 
+    import tempfile
+    plog = tempfile.NamedTemporaryFile(prefix="bnd_c05p_", suffix=".log", delete=False)
+    plog.close()
+
     def fresh(direction=None, neg=False, kind=None, seed=None):
-        t, _ = make_task(kind or case["kind"], direction or case["direction"], case["seed"] if seed is None else seed)
+        # the objective of every task of a relational scenario checks its argument too (C05 on used instances)
+        t, _ = make_task(kind or case["kind"], direction or case["direction"], case["seed"] if seed is None else seed, log=plog.name)
         if neg:
             t.data["kind"] = "neg:" + t.data["kind"]
         return t
@@ -530,12 +553,18 @@ def run_pair(case):
             b = K(C(**case["cfg_kw"])).optimize(fresh())
             if a.model_dump() != b.model_dump():
                 rec["monitors"]["C18"] = "run after set_config_parameters differs from run of an optimizer built with the config"
-        elif sc == "duality":
-            a = K(C(**case["cfg_kw"])).optimize(fresh("max"))
-            b = K(C(**case["cfg_kw"])).optimize(fresh("min", neg=True))
+        elif sc in ("duality", "duality_nan"):
+            import warnings
+            with warnings.catch_warnings():
+                warnings.simplefilter("ignore")
+                a = K(C(**case["cfg_kw"])).optimize(fresh("max"))
+                b = K(C(**case["cfg_kw"])).optimize(fresh("min", neg=True))
+
+            def opp(u, v):      # exact negatives; an undefined value is undefined in both runs
+                return (u == -v) or (isinstance(u, float) and isinstance(v, float) and math.isnan(u) and math.isnan(v))
             same = len(a.evolution) == len(b.evolution) and all(
-                [x.position for x in ga.agents] == [y.position for y in gb.agents] and
-                all(x.cost == -y.cost for x, y in zip(ga.agents, gb.agents))
+                repr([x.position for x in ga.agents]) == repr([y.position for y in gb.agents]) and
+                all(opp(x.cost, y.cost) for x, y in zip(ga.agents, gb.agents))
                 for ga, gb in zip(a.evolution, b.evolution))
             if not same:
                 rec["monitors"]["C12"] = "max f and min -f visit different positions / costs are not exact negatives"
@@ -543,6 +572,14 @@ def run_pair(case):
         tb = traceback.extract_tb(ex.__traceback__)
         fn = next((f"{os.path.basename(f.filename)}:{f.name}" for f in reversed(tb) if "pyvolutionary" in f.filename), "?")
         rec["exc"] = {"type": type(ex).__name__, "where": fn, "msg": str(ex)[:160]}
+    try:
+        lines = open(plog.name).read().splitlines()
+        os.unlink(plog.name)
+    except OSError:
+        lines = []
+    if lines:
+        d = json.loads(lines[0])
+        rec["monitors"].setdefault("C05", f"objective called with {d['x']}: {d['msg']} ({len(lines)} such calls, scenario {sc})")
     return rec
 
 
@@ -593,7 +630,7 @@ def _dispatch(case):
     try:
         if case.get("scenario") == "xproc":
             return run_xproc([case])[0]
-        if case.get("scenario") in ("repro", "reuse", "setcfg", "duality", "reuse2", "repro0", "setcfg2", "duality_reuse", "reuse3", "reuse_dim"):
+        if case.get("scenario") in ("repro", "reuse", "setcfg", "duality", "reuse2", "repro0", "setcfg2", "duality_reuse", "reuse3", "reuse_dim", "duality_nan"):
             return run_pair(case)
         return run_case(case)
     except Exception as ex:  # harness failure
@@ -624,6 +661,11 @@ def build_cases(tier, seed):
                             kw = dict(base, max_cycles=mc, population_size=int(base["population_size"] * sc))
                             cases.append(dict(opt=opt, cfg_name=cfg_name, cfg_kw=kw, kind=kind, direction=direction, seed=sd,
                                               mode=None, scenario="single", scale=sc))
+        # integer-coded tasks, a longer budget (a population that collapses onto one point needs a few cycles to do so)
+        for kind in (["discrete", "perm"] if tier == "quick" else INTCODED):
+            for direction in ("min", "max"):
+                cases.append(dict(opt=opt, cfg_name=cfg_name, cfg_kw=dict(base, max_cycles=10), kind=kind, direction=direction, seed=seeds[0],
+                                  mode=None, scenario="single", scale=1.0))
         # stopping options
         for extra in (dict(fitness_error=0.5), dict(fitness_error=None, early_stopping=dict(patience=2, min_delta=0.5)),
                       dict(fitness_error=1e-9, early_stopping=dict(patience=1, min_delta=1e-3)),
@@ -648,6 +690,8 @@ def build_cases(tier, seed):
             kw = dict(base, max_cycles=3)
             cases.append(dict(opt=opt, cfg_name=cfg_name, cfg_kw=kw, kind="cont3", direction="min", seed=seeds[0], mode=None,
                               scenario=scn, scale=1.0))
+        cases.append(dict(opt=opt, cfg_name=cfg_name, cfg_kw=dict(base, max_cycles=3), kind="nanobj", direction="min", seed=seeds[0], mode=None,
+                          scenario="duality_nan", scale=1.0))
         # re-configuration that changes one algorithm parameter and keeps the population size
         for pname, pval in sorted(base.items()):
             if pname in ("population_size", "max_cycles", "fitness_error") or isinstance(pval, bool) or not isinstance(pval, int):
@@ -673,15 +717,29 @@ def build_cases(tier, seed):
                     kw = dict(base, max_cycles=8, population_size=base["population_size"] + extra_n)
                     cases.append(dict(opt=opt, cfg_name=cfg_name, cfg_kw=kw, kind="cont3", direction=direction, seed=sd, mode=None,
                                       scenario="single", scale=f"+{extra_n}"))
+        # populations well below the documented scale (configurations the validators accept; several optimizers do not run
+        # there: only completed runs are looked at, and only for the size and elitism clauses)
+        for frac in (0.45, 0.3):
+            for direction in ("min", "max"):
+                for sd in seeds[:2]:
+                    n_small = max(2, int(base["population_size"] * frac))
+                    cases.append(dict(opt=opt, cfg_name=cfg_name, cfg_kw=dict(base, max_cycles=6, population_size=n_small), kind="cont3",
+                                      direction=direction, seed=sd, mode=None, scenario="single", scale=f"small{frac}"))
         for direction in ("min", "max"):
             cases.append(dict(opt=opt, cfg_name=cfg_name, cfg_kw=dict(base, max_cycles=4), kind="cont3", direction=direction, seed=seeds[0],
                               mode=None, scenario="single", scale=1.0, debug=True))
         for kind in ("cont3", "multiobj"):
             cases.append(dict(opt=opt, cfg_name=cfg_name, cfg_kw=dict(base, max_cycles=2), kind=kind, direction="min", seed=seeds[0],
                               mode=None, scenario="rejected", scale=1.0))
+        # a task without a seed (the model default): the run is random, only "caller's objects untouched" is looked at
+        cases.append(dict(opt=opt, cfg_name=cfg_name, cfg_kw=dict(base, max_cycles=2), kind="cont3", direction="min", seed=seeds[0],
+                          mode=None, scenario="noseed", scale=1.0))
         for kind in ("multi1", "multi1b"):
             cases.append(dict(opt=opt, cfg_name=cfg_name, cfg_kw=dict(base, max_cycles=3), kind=kind, direction="min", seed=seeds[0],
                               mode=None, scenario="single", scale=1.0))
+    for c_ in cases:        # budget and size are part of a case's identity (replay finds the case by these keys)
+        c_["mc"] = c_["cfg_kw"].get("max_cycles")
+        c_["pop"] = c_["cfg_kw"].get("population_size")
     return cases
 
 
